@@ -12,15 +12,6 @@ import Gzx.Proofs.GoMTie
 namespace Gzx.Obligations.K16b
 open Gzx Gzx.GoM Gzx.Bits Gzx.GoVal
 
-/-- what a regenerated void method on the word slice must return for a model result -/
-def expW (r : Res WMat) : Res (List Int) := r.map (fun m' => words m'.words)
-
-/-- … a method with an `error` result: `illegalArg` is the Go error (state unchanged), other faults are panics -/
-def expEW (orig : List Nat) : Res WMat → Res (Bool × List Int)
-  | .ok m' => .ok (false, words m'.words)
-  | .error .illegalArg => .ok (true, words orig)
-  | .error e => .error e
-
 when_kernel Gzx.Gen.K16b.matrixSet in
 /-- `BitMatrix.Set(x, y)` = `WMat.set`: word `y*rowSize + x/32`, `|= 1 << (x%32)` in 32-bit arithmetic, index panic -/
 theorem k_matrixSet_eq (m : WMat) (x y : Nat) :
@@ -56,14 +47,6 @@ theorem k_matrixFlip_eq (m : WMat) (x y : Nat) :
   · gonorm; omega
   · intro w; gonorm
     rw [bit_natCast _ (x % 32) (by omega) (by omega), ixor_natCast]
-
-theorem expEW_error (o : List Nat) {e : Fault} (h : NotArg e) : expEW o (.error e) = .error e := by
-  cases e <;> first | rfl | exact absurd rfl h
-
-/-- resolve the argument checks: every `if` whose condition `omega` decides from the context -/
-macro "resolve_ifs" : tactic =>
-  `(tactic| simp (disch := omega) only [Bool.or_eq_true, Bool.and_eq_true, decide_eq_true_eq, bne_iff_ne, beq_iff_eq, ne_eq,
-      if_pos, if_neg])
 
 when_kernel Gzx.Gen.K16b.matrixSetRegion in
 /-- `BitMatrix.SetRegion(left, top, width, height)` = `WMat.setRegion`: the three argument checks (error, matrix unchanged),
